@@ -112,6 +112,19 @@ func (propC17) Gen(seed uint64, ex map[string]bool) interface{} {
 			}
 		}
 	}
+	if r.P(30) {
+		// print the callable global somewhere in the main template (in a block if it extends)
+		for ti := range sc.Prog.Templates {
+			if t := &sc.Prog.Templates[ti]; t.Name == sc.Prog.Main {
+				if len(t.Segs) > 0 && strings.Contains(t.Segs[0], "extends") {
+					t.Segs = append(t.Segs, "{% block b0 %}{{ cb }}{% endblock %}")
+				} else {
+					at := r.N(len(t.Segs) + 1)
+					t.Segs = append(t.Segs[:at], append([]string{pick(r, []string{"{{ cb }}", "{% if true %}{{ cb }}{% endif %}", "{% for q in [1, 2] %}{{ cb }}{% endfor %}"})}, t.Segs[at:]...)...)
+				}
+			}
+		}
+	}
 	main := sc.Prog.Sources()[sc.Prog.Main]
 	variant := func(re *regexp.Regexp, repl func(m []string) string) {
 		locs := re.FindAllStringSubmatchIndex(main, -1)
@@ -218,6 +231,16 @@ func c17Engine(sc *c17Sc, sp *Spies, mainSrc string) *twig.Engine {
 				return f(v, a...)
 			}
 		})
+	// a Go callable among the globals: the print node runs a func(io.Writer) error it finds, so it is one more
+	// fallible invocation that writes output of its own before it may fail
+	e.AddGlobal("cb", func(w io.Writer) error {
+		io.WriteString(w, "<cb")
+		if err := sp.hit("callable", "global-cb"); err != nil {
+			return err
+		}
+		io.WriteString(w, ">")
+		return nil
+	})
 	if sc.Debug {
 		e.SetDebug(true)
 	}
